@@ -287,7 +287,10 @@ def tsat(p, bounds = False):
     else: ok = True
     if ok:
         from scipy.optimize import fsolve
-        def f(t): return sat(t) - p
+        def f(t):
+            # fsolve passes its argument as a 1-element array
+            if isinstance(t, Iterable): t = t[0]
+            return sat(t) - p
         from math import log
         t0 = max(4606.0 / (24.02 - log(p)) - 273.15, 5.0) # starting estimate
         t = fsolve(f, t0)
